@@ -130,11 +130,13 @@ PROPS = {
         'modules': M_BODYW,
         'explanation': 'calculate_max_input has its closed form as postcondition; BodyWriter::write in chunked mode returns exactly cc(len, avail) (greedy largest-fitting chunks); lemma_max_input_fits proves by induction, for every n and every l <= max_input(n), cc(l, n) == l; lemma_max_input_le_and_monotone gives <= n and monotone; Flow<SendBody>::calculate_max_input is the identity for Content-Length bodies and read-only.',
         'assumptions': [VERUS, USIZE, WRITER_MODEL, FMT],
+        'bounded': ['Kani (thorough tier, and as counterexample search when an obligation fails): body::calculate_max_input against its closed form for every n < 2^32 on the real function (kani/verif_kani_body.rs)'],
     },
     'C19': {
         'modules': M_BODYW,
         'explanation': 'max_chunk_data verified to return the largest data length whose chunk fits; lemma_cc_progress (>= 1 byte with >= 6 bytes of room, >= min(len, advertised max)) and lemma_cc_monotone (more input never less progress) over the exact consumed-count postcondition of BodyWriter::write; Sized: min3 copy; termination of the chunk loop by decreases.',
         'assumptions': [VERUS, USIZE, WRITER_MODEL, FMT],
+        'bounded': ['Kani (thorough tier, and as counterexample search when an obligation fails): body::hex_len against an independent digit count and body::max_chunk_data = largest fitting chunk, FULL usize domain on the real functions (kani/verif_kani_body.rs)'],
     },
     'C20': {
         'modules': ['parser', 'head_lemmas'],
